@@ -66,6 +66,28 @@ pub fn jobs(seed: u64, tier: &str) -> Vec<Job> {
             }
         }
     }
+    // periodic rhythms: an evenly spaced lead-in, then well over 128 objects whose gaps repeat with a short period (windows that
+    // look back a fixed number of objects - 64 ratio pairs in the taiko colour evaluator - see nothing but the pattern, and the
+    // object just beyond the window is the lead-in), pseudo-random hit sounds
+    for (mi, mode) in ["osu", "taiko", "catch", "mania"].iter().enumerate() {
+        for (pi, pattern) in [vec![200u32, 200, 100, 100], vec![100, 200], vec![150, 150, 75], vec![120, 120, 120, 60, 60]].iter().enumerate() {
+            for lead in [4usize, 9] {
+                let mut s = format!("osu file format v14\n\n[General]\nMode: {mi}\n\n[Difficulty]\nHPDrainRate:5\nCircleSize:4\nOverallDifficulty:7\nApproachRate:9\nSliderMultiplier:1.4\nSliderTickRate:1\n\n[TimingPoints]\n0,400,4,2,0,100,1,0\n\n[HitObjects]\n");
+                let mut t = 1000u32;
+                let mut x = 0x2545_f491u32 ^ (pi as u32 * 977 + lead as u32);
+                for k in 0..(lead + 170) {
+                    x ^= x << 13;
+                    x ^= x >> 17;
+                    x ^= x << 5;
+                    s += &format!("{},{},{t},1,{}\n", 64 + 128 * (x % 4), 80 + 40 * ((x >> 3) % 5), [0u32, 8, 0, 2, 8, 0][(x >> 7) as usize % 6]);
+                    t += if k < lead { 250 } else { pattern[(k - lead) % pattern.len()] };
+                }
+                if let Ok(map) = Beatmap::from_bytes(s.as_bytes()) {
+                    out.push(Job { label: format!("{mode} periodic rhythm {pattern:?} after {lead} even notes"), map, cfg: all[(pi + mi + lead) % all.len()].clone() });
+                }
+            }
+        }
+    }
     // very long breaks: strains decay to exactly zero and hundreds / thousands of empty sections follow before the map goes on
     for (mi, mode) in ["osu", "taiko", "catch", "mania"].iter().enumerate() {
         for (bi, brk) in [120_000u32, 900_000].iter().enumerate() {
